@@ -334,8 +334,10 @@ func (m *machine) finish(outcome string) {
 	if res.DecisionKinds == nil {
 		res.DecisionKinds = map[string]int64{}
 	}
-	for _, d := range m.trace[len(m.prefix):] {
-		res.DecisionKinds[d.Kind]++
+	if len(m.trace) >= len(m.prefix) {
+		for _, d := range m.trace[len(m.prefix):] {
+			res.DecisionKinds[d.Kind]++
+		}
 	}
 	if len(m.prefix) > 0 {
 		res.DecisionKinds["alt:"+m.prefix[len(m.prefix)-1].Kind]++
